@@ -173,7 +173,7 @@ static void op_c05_fix(Exec& x, const Json& op, int)
 			std::string kind;
 			if (present && !good.empty() && good[0]->size() == ita->second.data.size()) {
 				const Bytes& d = ita->second.data;
-				bool hashed_wrong = false, pending_wrong = false, pending_unique = false;
+				bool hashed_wrong = false, pending_wrong = false, pending_unique = false, pending_invalid = false, wrote_zero = false, past_hash_matches_written = false;
 				for (size_t bi = 0; bi < f.blocks.size(); ++bi) {
 					uint64_t off = (uint64_t)bi * c.block_size;
 					uint64_t len = std::min<uint64_t>(c.block_size, d.size() - off);
@@ -183,13 +183,27 @@ static void op_c05_fix(Exec& x, const Json& op, int)
 						pending_wrong = true;
 						const Bytes& h = f.blocks[bi].hash;
 						bool zero = h == Bytes(h.size(), '\xff'), inval = h == Bytes(h.size(), '\0');
-						if (!zero && !inval) pending_unique = true;
+						if (!zero && !inval) {
+							pending_unique = true;
+							// upstream rejects a rebuilt block that still hashes to the past hash ("maybe old data"); the known defect
+							// is that the hash does NOT match although the bytes are old (other length / hash already overwritten)
+							bool rehash = c.info[f.blocks[bi].pos].present && c.info[f.blocks[bi].pos].rehash;
+							Bytes hw = ref_hash(c, d.substr(off, len), rehash);
+							if (!hw.empty() && hw == h) past_hash_matches_written = true;
+						}
+						if (inval) pending_invalid = true;
+						if (d.substr(off, len) == Bytes(len, '\0')) wrote_zero = true;
 					}
 				}
 				if (hashed_wrong) kind = " [a block with a recorded hash is wrong]";
 				else if (pending_wrong && x.sb.cfg.hash_size < 16) kind = " [pending block, reduced hash size: the zero/invalid hash markers are not recognised]";
+				else if (pending_wrong && pending_unique && past_hash_matches_written) kind = " [pending block whose past hash matches the written bytes: the old-data test was bypassed]";
 				else if (pending_wrong && pending_unique) kind = " [pending block carrying a past hash: fix wrote the previous occupant of the position]";
-				else if (pending_wrong) kind = " [pending block with zero/invalid past hash]";
+				// upstream accepts a rebuilt block under the 'zero' marker only when it is NOT all zeros ("surely the state after
+				// the sync") and never under the 'invalid' marker: the other combinations are not the known stale-parity shape
+				else if (pending_wrong && pending_invalid) kind = " [pending block with the invalid-hash marker accepted]";
+				else if (pending_wrong && wrote_zero) kind = " [pending block with the zero marker rebuilt as all zeros and accepted]";
+				else if (pending_wrong) kind = " [pending block with the zero marker rebuilt from stale non-zero parity]";
 			}
 			if (getenv("SNAPSIM_DEBUG")) {
 				fprintf(stderr, "damage: %s\n", x.vars.count("c01_damage") ? x.vars["c01_damage"].dump().c_str() : "-");
@@ -239,8 +253,59 @@ static void op_c05_fix(Exec& x, const Json& op, int)
 	x.out.sample = smp;
 }
 
+// "pending neighbours": files that were only touched (or rewritten with the same bytes) share stripes with files newly added on
+// other disks; the sync is stopped right after it saved the content that records all of them as pending (no parity updated yet);
+// then pending and/or synced files are lost and fix runs.
+static RunPlan gen_fixsafe_neighbours(uint64_t seed, int tier)
+{
+	Rng rng(seed);
+	RunPlan p;
+	p.family = "fixsafe";
+	p.seed = seed;
+	p.cfg = gen_config(rng, 4, 4, false);
+	while (p.cfg.disks.size() < 2) { DiskCfg d; d.name = strf("d%zu", p.cfg.disks.size() + 1); d.top = d.name; p.cfg.disks.push_back(d); }
+	if (rng.chance(3, 4)) p.cfg.hash_size = 16;
+	p.cfg.autosave_at = 0;
+	(void)tier;
+	unsigned bs = p.cfg.block_size();
+	size_t nd = p.cfg.disks.size();
+	// the first disks hold synced files, the others little or nothing, so that new files there land on low positions
+	for (size_t d = 0; d < nd; ++d) {
+		int n = d < (nd + 1) / 2 ? (int)rng.range(1, 3) : (int)rng.range(0, 1);
+		for (int i = 0; i < n; ++i)
+			p.ops.push_back(Json::obj().set("k", "create").set("d", (int64_t)d).set("name", strf("base%d", i)).set("size", rng.range(1, 5) * bs - (rng.chance(1, 2) ? rng.range(0, bs - 1) : 0)).set("seed", rng.next() >> 1));
+	}
+	CmdSpec base;
+	base.cmd = "sync";
+	p.ops.push_back(op_cmd(gen_sched(rng, base), "ok"));
+	// touch / rewrite-with-same-bytes some synced files, add new files everywhere
+	for (size_t d = 0; d < nd; ++d) {
+		if (rng.chance(1, 2)) p.ops.push_back(Json::obj().set("k", rng.chance(1, 2) ? "touch" : "sametouch").set("d", (int64_t)d).set("sub", "base0"));
+		int n = (int)rng.range(0, 2);
+		for (int i = 0; i < n; ++i)
+			p.ops.push_back(Json::obj().set("k", "create").set("d", (int64_t)d).set("name", strf("new%d", i)).set("size", rng.range(1, 4) * bs - (rng.chance(1, 2) ? rng.range(0, bs - 1) : 0)).set("seed", rng.next() >> 1));
+	}
+	// stop the sync early: right after the content save that records the pending blocks, or after a few stripes
+	CmdSpec s;
+	s.cmd = "sync";
+	s = gen_sched(rng, s);
+	if (rng.chance(1, 2)) { s.sig_at_io = (unsigned)rng.range(1, 4); s.sig_no = 2; }
+	else s.opts = { "-B", strf("%d", (int)rng.range(1, 3)) };
+	p.ops.push_back(op_cmd(s));
+	// lose pending and/or synced files
+	int lose = (int)rng.range(1, 3);
+	for (int i = 0; i < lose; ++i)
+		p.ops.push_back(Json::obj().set("k", "delete").set("d", (int64_t)rng.below(nd)).set("sub", rng.chance(2, 3) ? strf("new%d", (int)rng.below(2)) : std::string("base0")));
+	CmdSpec f;
+	f.cmd = "fix";
+	if (rng.chance(1, 5)) f.opts = { "-m" };
+	p.ops.push_back(Json::obj().set("k", "c05_fix").set("spec", gen_sched(rng, f).to_json()));
+	return p;
+}
+
 static RunPlan gen_fixsafe(uint64_t seed, int tier)
 {
+	if ((seed % 3) == 0) return gen_fixsafe_neighbours(seed, tier);
 	Rng rng(seed);
 	RunPlan p;
 	p.family = "fixsafe";
